@@ -646,7 +646,8 @@ func (t *Tx) AddFlagToMessages(ctx context.Context, ids []imap.InternalMessageID
 	return nil
 }
 
-// RemoveFlagFromMessages: DELETE ... WHERE value = ? : byte-exact.
+// RemoveFlagFromMessages: DELETE ... WHERE value = ? COLLATE NOCASE : ASCII case-insensitive on the flag value.
+// (VerifC03Statements checks that the statement really carries the collation this contract relies on.)
 func (t *Tx) RemoveFlagFromMessages(ctx context.Context, ids []imap.InternalMessageID, flag string) error {
 	if err := t.mutate(fmt.Sprintf("RemoveFlagFromMessages n=%d %s", len(ids), flag)); err != nil {
 		return err
@@ -655,7 +656,7 @@ func (t *Tx) RemoveFlagFromMessages(ctx context.Context, ids []imap.InternalMess
 		if m := t.D.Msg(id); m != nil {
 			var keep []string
 			for _, f := range m.Flags {
-				if f != flag {
+				if !strings.EqualFold(f, flag) {
 					keep = append(keep, f)
 				}
 			}
